@@ -213,6 +213,13 @@ func loadKnown() []knownFinding {
 				kf.Obl = f[11:]
 			}
 		}
+		// an obligation name that contains spaces (lemmas, closures) is written in double quotes
+		if i := strings.Index(l, `obligation="`); i >= 0 {
+			rest := l[i+len(`obligation="`):]
+			if j := strings.Index(rest, `"`); j >= 0 {
+				kf.Obl = rest[:j]
+			}
+		}
 		kf.Text = l
 		out = append(out, kf)
 	}
@@ -371,7 +378,7 @@ func check(prop, tier string, writeLock bool, filter string) int {
 	known := loadKnown()
 	isKnown := func(full string) *knownFinding {
 		for i := range known {
-			if known[i].Kind == "known" && known[i].Prop == prop && known[i].Obl == full {
+			if known[i].Kind == "known" && known[i].Prop == prop && (known[i].Obl == full || lockKey(known[i].Obl) == lockKey(full)) {
 				return &known[i]
 			}
 		}
@@ -434,6 +441,7 @@ func check(prop, tier string, writeLock bool, filter string) int {
 	var samples []interface{}
 	var violLines []string
 	knownPrinted := map[string]bool{}
+	var knownNames []string
 	for _, o := range obls {
 		full := o.Func + "#" + o.Name
 		r := o.Result
@@ -462,9 +470,11 @@ func check(prop, tier string, writeLock bool, filter string) int {
 		} else if kf := isKnown(full); kf != nil {
 			verdict = "known-finding"
 			nKnown++
+			o.Kind = o.Kind + " (known finding)"
+			knownNames = append(knownNames, full)
 			if !knownPrinted[full] {
 				knownPrinted[full] = true
-				fmt.Printf("KNOWN-FINDING: property=%s %s\n", prop, kf.Text)
+				fmt.Printf("KNOWN-FINDING: %s\n", kf.Text)
 			}
 		} else {
 			nViol++
@@ -558,7 +568,7 @@ func check(prop, tier string, writeLock bool, filter string) int {
 	}
 	extra := map[string]interface{}{
 		"functions_under_contract": funcsUnder, "per_function": reports, "backends": backends, "solver_time_s": round3(solverS),
-		"load_s": round3(loadS), "vcgen_s": round3(genS), "known_findings_matched": nKnown, "packages": pats,
+		"load_s": round3(loadS), "vcgen_s": round3(genS), "known_findings_matched": nKnown, "known_finding_obligations": knownNames, "packages": pats,
 	}
 	writeEvidence(evPath, prop, tier, seed, obls, samples, assumptions, nViol, time.Since(t0).Seconds(), extra, fmt.Sprintf("%d/%d", nDis, len(obls)-nKnown))
 	fmt.Printf("property %s tier %s: %d obligations, %d discharged, %d known findings, %d violations; load %.1fs vcgen %.1fs solve(cpu) %.1fs wall %.1fs\n",
@@ -634,6 +644,9 @@ func writeEvidence(path, prop, tier string, seed int, obls []*Obligation, sample
 				nCoverOpen++
 			}
 			continue
+		}
+		if strings.HasSuffix(o.Kind, "(known finding)") {
+			continue // listed in known_findings.txt: reported apart, not part of what this run proves
 		}
 		nObl++
 		if o.Result.Status == "unsat" {
